@@ -418,6 +418,7 @@ def run_unit(unit: Unit, timeout_ms: int = 10000, canaries: bool = True, prefixe
             # counts / facts introduced by this obligation's specification are local to it
             del st.counts[n_counts:]
             del st.pc[n_pc:]
+            st.assumed = {i for i in st.assumed if i < n_pc}
             st._solver = None
         if len(ur.samples) < 3:
             ur.samples.append(dict(path=pi, outcome=outcome, pc=[str(z3.simplify(p))[:160] for p in st.pc[:6]],
